@@ -200,6 +200,11 @@ def r11_2(q, R, spec):
                 env = envs[form["name"]]
                 R.inst(rid, "contract:value", rr == U.parse(form["value"], env), sp=a["sp"], expect=U.show(U.parse(form["value"], env)), got=U.show(rr),
                        detail="the innermost simple name of the name in the same namespace; names without `$` stay")
+                # the write happens for every class: contraction "keeps only the innermost simple name" of whatever the name in that
+                # namespace is - it does not depend on the source name or anything else (seed C11-6).  A refusal of slot 0 is tolerated.
+                other = [c for c in conds if "namespace" not in U.show(c[1]) or any(w in U.show(c[1]) for w in ("self", "names", "first_name", "inner"))]
+                R.inst(rid, "contract:unconditional", not other, sp=a["sp"], expect="the slot is rewritten for every class (at most a guard on the namespace index)",
+                       got=U.show_conds(conds), detail="a class whose name in the chosen namespace is nested is contracted whatever its source name looks like")
                 # Not required: refusing the first namespace in contract.  The property quantifies over target namespaces at a non-first
                 # index only, so whether contract refuses slot 0 is outside what C11 states (a rule demanding it was withdrawn).
     ib = q.fn("index_mut", impl_ty="quill::tree::names::Names<")
@@ -220,7 +225,7 @@ def r11_2(q, R, spec):
     b = q.fn("get_class_name", impl_ty="quill::tree::mappings::Mappings")
     if R.anchor(rid, "fn Mappings::get_class_name", b):
         U.check_fn_result(R, rid, "get_class_name", b, sg["params"], sg["result"], detail=sg["doc"])
-    R.floor(rid, 5 + 2 + 5 + 2 + 2)
+    R.floor(rid, 5 + 2 + 5 + 2 + 2 + 1)
 
 
 def _refused(conds, guard):
